@@ -241,4 +241,4 @@ STRATEGIES = {'specs': _specs}
 
 def parts(tier, seed):
     q = tier == 'quick'
-    return [('hyp', 'specs', 320 if q else 8000, 10)]
+    return [('hyp', 'specs', 1600 if q else 16000, 10)]
